@@ -416,6 +416,27 @@ func TestVerifC09(t *testing.T) {
 		checkPipe(res, r, i)
 	}
 
+	// 5b. dense sweep of the real encoder: every chunk length 0..N (not only the
+	// prefix boundaries) and 2^k-2..2^k+2, each followed by a sentinel chunk, must
+	// be read back as exactly (chunk, sentinel, EOF) by the reference decoder and
+	// by ReadData, and WriteData must report the bytes it wrote
+	denseMax := vlib.Scale(20000, 150000)
+	var denseNs []int
+	for n := 0; n <= denseMax; n++ {
+		denseNs = append(denseNs, n)
+	}
+	for k := 4; k <= 20; k++ {
+		for d := -2; d <= 2; d++ {
+			if n := 1<<uint(k) + d; n > denseMax && n < 1<<20 {
+				denseNs = append(denseNs, n)
+			}
+		}
+	}
+	dr := root.Split("dense")
+	for _, n := range denseNs {
+		checkDenseWrite(res, dr, n)
+	}
+
 	// 6. WritePadding(n): exactly n bytes, invisible to the reader
 	padMax := 5000
 	var padNs []int
@@ -458,10 +479,53 @@ func TestVerifC09(t *testing.T) {
 	res.RequireObs("padding_sizes_checked", 5001)
 	res.RequireObs("budgets_checked", 20000)
 	res.RequireObs("pipe_cases", 100)
+	res.RequireObs("dense_write_lengths", 20000)
 	res.RequireObs("reader_error_inside_chunk", 500)
 	res.RequireObs("terminal_EOF", 1)
 	res.RequireObs("terminal_ErrUnexpectedEOF", 1)
 	res.RequireObs("terminal_ErrTooLong", 1)
+}
+
+func checkDenseWrite(res *vlib.Result, r *vlib.Rand, n int) {
+	res.Eval(1)
+	res.Obs("dense_write_lengths", 1)
+	p := make([]byte, n)
+	r.Fill(p)
+	sentinel := []byte{0xa5, byte(n), byte(n >> 8), 0x5a}
+	rec := map[string]interface{}{"case": fmt.Sprintf("dense/%d", n), "chunk_len": n}
+	var buf bytes.Buffer
+	var wn int
+	var werr error
+	if res.Guard("panic:WriteData", rec, func() { wn, werr = encapsulation.WriteData(&buf, p) }) {
+		return
+	}
+	first := buf.Len()
+	if werr != nil {
+		res.Violatef("write-error:valid-length", rec, "WriteData of %d bytes failed: %v", n, werr)
+		return
+	}
+	if wn != first {
+		res.Violatef("write-count-mismatch", rec, "WriteData(%d bytes) returned n=%d but wrote %d bytes", n, wn, first)
+	}
+	if _, err := encapsulation.WriteData(&buf, sentinel); err != nil {
+		res.Violatef("write-error:valid-length", rec, "WriteData of the sentinel failed: %v", err)
+		return
+	}
+	stream := buf.Bytes()
+	ref := refDecode(stream)
+	okRef := len(ref.chunks) == 2 && bytes.Equal(ref.chunks[0], p) && bytes.Equal(ref.chunks[1], sentinel) && ref.err == io.EOF
+	var chunks [][]byte
+	var err error
+	res.Guard("panic:ReadData:dense", rec, func() { chunks, err = decodeAll(bytes.NewReader(stream), 10) })
+	okReal := len(chunks) == 2 && bytes.Equal(chunks[0], p) && bytes.Equal(chunks[1], sentinel) && err == io.EOF
+	if !okRef || !okReal {
+		rec["stream_len"] = len(stream)
+		rec["stream_prefix"] = hexPrefix(stream)
+		res.Violatef("roundtrip-mismatch:written-chunk-not-read-back", rec, "WriteData(%d bytes) + WriteData(sentinel): reference decoder got %d chunks (terminal %s), ReadData got %d chunks (terminal %s); the written chunk and the sentinel must come back intact", n, len(ref.chunks), errName(ref.err), len(chunks), errName(err))
+	}
+	if n%997 == 0 {
+		res.Distinct(fmt.Sprintf("dense/%d", n))
+	}
 }
 
 type countWriter struct {
